@@ -532,6 +532,40 @@ def check_scenarios(ctx, scs):
     return traces
 
 
+CONTROL = dict(params=["a", "b"], args=dict(a=[], b=[dict(t="p", p="a", c=0), dict(t="c", p="", c=4)]),
+               dist=dict(a=dict(kind="fake", w0=2, zm=4, zr=3, z=[0, 0], l0=1, l=[2, 0, 0], k=-1, dd=[1, 0, 0], m=1),
+                         b=dict(kind="fake", w0=3, zm=4, zr=3, z=[0, 0], l0=-2, l=[1, -3, 2], k=2, dd=[1, -1, 0], m=0)),
+               names=["b", "a"], unit=4, mode="val", default_names=False, sim=False, pinned="control",
+               calls=[dict(op="pdf", ndim=2, rows=[[4, 8], [0, 4]], form="array", dtype="f"),
+                      dict(op="logpdf", ndim=2, rows=[[4, 8], [0, 4]], form="array", dtype="f")])
+
+
+def corruption_control(ctx):
+    """T5 of DESIGN section 4: a recorded trace with ONE returned field altered must be rejected by TLC."""
+    from harness import tlc
+    base = record(json.loads(json.dumps(CONTROL)))
+    variants = []
+    t = json.loads(json.dumps(base))
+    t["calls"][0]["vals"][1]["n"] += 1
+    variants.append(("P:product", t))
+    t = json.loads(json.dumps(base))
+    t["calls"][1]["vals"][0]["m"] += 500000
+    variants.append(("P:log-consistent", t))
+    t = json.loads(json.dumps(base))
+    t["calls"][0]["shape"] = [2, 1]
+    variants.append(("P:shape", t))
+    t = json.loads(json.dumps(base))
+    t["calls"][0]["rows"][0] = [12, 8]          # b = 3 lies in b's zero set: the logged positive value is wrong there
+    variants.append(("P:zero-iff", t))
+    vs = ctx.validate("ModelPrior_Trace", [base] + [v[1] for v in variants], name="control")
+    if vs[0]["verdict"] != "ok":
+        return      # the code under test fails the control scenario itself: reported through the pinned scenarios
+    for (want, _), v in zip(variants, vs[1:]):
+        if v["verdict"] != want:
+            raise tlc.MachineryFailure("corrupted control trace: expected %s, TLC said %s" % (want, v["verdict"]))
+    ctx.negative_controls.append(dict(run="corrupted recorded traces (value, log value, shape, zero point)", refuted=[v[0] for v in variants]))
+
+
 def mc_cfg(names, max_args, fixed, topo, phases, invs, big=False, attrs=("pdf", "logpdf")):
     return """SPECIFICATION Spec
 CONSTANTS
@@ -584,11 +618,13 @@ def run(ctx):
                 expect_actions=acts1 + ["PickGrad"], workers=8, timeout=1800)
         ctx.tlc("MC_ModelPrior", "MC_ModelPrior_N4any1", cfg_text=mc_cfg("N4", 1, True, False, [1], inv1), expect_actions=acts1, workers=8, timeout=1800)
         ctx.tlc("MC_ModelPrior", "MC_ModelPrior_N4topo2", cfg_text=mc_cfg("N4", 2, True, True, [1], inv1, attrs=("pdf",)), expect_actions=acts1, workers=8, timeout=3000)
+    corruption_control(ctx)
     scs, n_em, n_used = scenarios(ctx)
+    scs.insert(2, json.loads(json.dumps(CONTROL)))
     traces = check_scenarios(ctx, scs)
     ctx.exhaustive = not ctx.quick
     ctx.notes.append("%d (DAG, requested order) pairs emitted by TLC, %d instantiated; %d random DAG scenarios; %d calls"
-                     % (n_em, n_used, len(scs) - n_used - 2, sum(len(t["calls"]) for t in traces)))
+                     % (n_em, n_used, len(scs) - n_used - 3, sum(len(t["calls"]) for t in traces)))
     for i in (0, 1, 5, len(scs) // 2, len(scs) - 1):
         if i < len(scs):
             ctx.sample(dict(scenario={k: scs[i][k] for k in ("params", "args", "names", "unit", "mode")},
